@@ -38,6 +38,24 @@ func ManyHeadersFile(pkg, goName string) *spec.File {
 	return f
 }
 
+// HeaderCaseVariantsFile: header names that differ only in letter case, within one level and across the
+// service and method level (HTTP treats them as one header; the definition spells them apart). Whatever
+// order and merging the generators apply, it has to be the same on every run.
+func HeaderCaseVariantsFile(pkg, goName string) *spec.File {
+	f := &spec.File{Path: "misc/" + goName + "/header_cases.proto", Package: pkg, GoImport: "lab/gen/" + goName, GoName: goName}
+	f.Messages = []*spec.Message{{Name: "CReq", Fields: []*spec.Field{spec.F("id", 1, spec.String)}}, {Name: "CResp", Fields: []*spec.Field{spec.F("ok", 1, spec.Bool)}}}
+	h := func(n, t string, req bool) spec.Header { return spec.Header{Name: n, Type: t, Required: req, Description: "declared as " + n} }
+	svc := []spec.Header{h("X-Request-ID", "string", true), h("X-Tenant-ID", "string", true), h("X-Trace-ID", "string", false), h("X-Api-Key", "string", true), h("X-Region", "string", false), h("x-debug", "boolean", false)}
+	m1 := []spec.Header{h("X-Request-Id", "string", true), h("X-Tenant-Id", "integer", true), h("x-trace-id", "string", true), h("X-API-KEY", "string", false), h("X-REGION", "string", true), h("X-Debug", "boolean", true)}
+	m2 := []spec.Header{h("x-request-id", "string", false), h("X-Request-iD", "string", true), h("X-TENANT-ID", "string", true)}
+	f.Services = []*spec.Service{{Name: "CaseService", BasePath: spec.S("/cases"), Headers: svc, Methods: []*spec.Method{
+		{Name: "First", In: "." + pkg + ".CReq", Out: "." + pkg + ".CResp", HTTP: &spec.HTTP{Path: "/first", Verb: 2}, Headers: m1},
+		{Name: "Second", In: "." + pkg + ".CReq", Out: "." + pkg + ".CResp", HTTP: &spec.HTTP{Path: "/second/{id}", Verb: 1}, Headers: m2},
+		{Name: "Third", In: "." + pkg + ".CReq", Out: "." + pkg + ".CResp", HTTP: &spec.HTTP{Path: "/third", Verb: 2}},
+	}}}
+	return f
+}
+
 // MultiFilePackage returns two files of one proto/Go package: annotated types without a
 // service, and a service file using them (cross-file unwrap, enum values, int64 NUMBER),
 // plus a third unrelated file in another package.
@@ -253,12 +271,18 @@ func SharedRequestFile(pkg, goName string) *spec.File {
 		{Name: "NoteRef", Fields: []*spec.Field{spec.F("note_id", 1, spec.String), spec.F("rev", 2, spec.Int64).Q("rev")}},
 		{Name: "OrgRef", Fields: []*spec.Field{spec.F("org_id", 1, spec.String), spec.F("note_id", 2, spec.String), spec.F("dry_run", 3, spec.Bool).Q("dry_run")}},
 		{Name: "Note", Fields: []*spec.Field{spec.F("note_id", 1, spec.String), spec.F("text", 2, spec.String)}},
+		{Name: "ItemRef", Fields: []*spec.Field{spec.F("item", 1, spec.String), spec.F("org", 2, spec.String), spec.F("title", 3, spec.String)}},
 		// used by a body verb FIRST and by bodiless verbs afterwards (the other messages: bodiless first)
 		{Name: "TagRef", Fields: []*spec.Field{spec.F("tag_id", 1, spec.String), spec.F("limit", 2, spec.Int32).Q("limit"), spec.F("q", 3, spec.String).Q("q"), spec.F("exact", 4, spec.Bool).Q("exact")}},
 	}
 	in := func(m string) string { return "." + pkg + "." + m }
 	f.Services = []*spec.Service{
 		{Name: "NoteService", BasePath: spec.S("/v1"), Methods: []*spec.Method{
+			// one message under path-variable sets of different sizes (what a server resolves per message
+			// instead of per route shows here)
+			{Name: "AddItem", In: in("ItemRef"), Out: in("Note"), HTTP: &spec.HTTP{Path: "/orgs/{org}/items", Verb: 2}},
+			{Name: "PutItem", In: in("ItemRef"), Out: in("Note"), HTTP: &spec.HTTP{Path: "/orgs/{org}/items/{item}", Verb: 3}},
+			{Name: "PatchItem", In: in("ItemRef"), Out: in("Note"), HTTP: &spec.HTTP{Path: "/items/{item}", Verb: 5}},
 			{Name: "RetagAll", In: in("TagRef"), Out: in("Note"), HTTP: &spec.HTTP{Path: "/tags/{tag_id}/retag", Verb: 2}},
 			{Name: "FindByTag", In: in("TagRef"), Out: in("Note"), HTTP: &spec.HTTP{Path: "/tags/{tag_id}", Verb: 1}},
 			{Name: "DropTag", In: in("TagRef"), Out: in("Note"), HTTP: &spec.HTTP{Path: "/tags/{tag_id}", Verb: 4}},
